@@ -33,6 +33,11 @@ class BC:
             s.used.append(name); return None
         w.hooks[fn] = h
 
+def CONTRACT_KERNELS(n):
+    sfx = '_avx512' if n == 8 else '_avx'
+    return ['mult' + sfx, 'square' + sfx, 'add' + sfx, 'sub' + sfx, 'mult' + sfx + '_8', 'mult' + sfx + '_72', 'mult' + sfx + '_128', 'reduce' + sfx + '_96_64', 'reduce' + sfx + '_128_64'] + \
+           (['add_avx512_b_c', 'sub_avx512_b_c'] if n == 8 else ['add_avx_b_small'])
+
 def kernels(v512):
     """name -> dict(kind, eight, aligned)"""
     s = 'avx512' if v512 else 'avx'
@@ -148,13 +153,13 @@ def ob_kernel(ctx, cfg, n, name, k):
     def goalf(tr, ret, outs): return [(lab, cong(tr.val(out_term(outs, loc)), sum(tr.prod(x, y)[0] for x, y in terms))) for lab, loc, terms in spec]
     bc = BC()
     def hooks(w):
-        if k['kind'] == 'spmv':
-            for kn in ('mult' + sfx, 'add' + sfx, 'mult' + sfx + '_72', 'reduce' + sfx + '_96_64') + (('add_avx512_b_c',) if n == 8 else ()):
-                bc.lane_hook(w, lanes.find(ctx, cfg, kn, T[kn], n), kn, T[kn], n)
-        else:
-            spn = k['sp']; spmv_contract_hook(bc, w, fsym(ctx, cfg, spn), spn, kernels(n == 8)[spn], n)
-            for kn in ('add' + sfx,) + (('add_avx512_b_c',) if n == 8 else ()):
-                bc.lane_hook(w, lanes.find(ctx, cfg, kn, T[kn], n), kn, T[kn], n)
+        # every lane kernel the matrix kernel may be built from is summarised by its contract (all are proved in this run, see obligations());
+        # kernels above the spmv level may also go through the spmv kernels' contracts
+        for kn in CONTRACT_KERNELS(n):
+            bc.lane_hook(w, lanes.find(ctx, cfg, kn, T[kn], n), kn, T[kn], n)
+        if k['kind'] != 'spmv':
+            for spn, sk in kernels(n == 8).items():
+                if sk['kind'] == 'spmv': spmv_contract_hook(bc, w, fsym(ctx, cfg, spn), spn, sk, n)
             scalar_add_hook(bc, w, ctx, cfg)
     paths = run(ctx, cfg, n, name, k, A, B, hooks=hooks)
     for pc, st, res in paths:
@@ -232,7 +237,7 @@ def obligations(ctx, cfg, n):
     obs = [Ob(name, ob_kernel, (cfg, n, name, k), weight=5) for name, k in kernels(n == 8).items()]
     # contracts relied on (lane kernels of C02/C11 and scalar add of C01) are re-proved in this run
     T = lanes.table(n == 8); sfx = '_avx512' if n == 8 else '_avx'
-    for kn in ['mult' + sfx, 'add' + sfx, 'mult' + sfx + '_72', 'reduce' + sfx + '_96_64'] + (['add_avx512_b_c'] if n == 8 else []):
+    for kn in CONTRACT_KERNELS(n):
         obs.append(Ob('contract/' + kn, lanes.ob_kernel, (cfg, lanes.MODS[cfg], kn, T[kn], n)))
     from . import C01
     fn = kern.sym(ctx, cfg, 'Goldilocks', 'add', 'void (Goldilocks::Element &, const Goldilocks::Element &, const Goldilocks::Element &)')
